@@ -11,13 +11,17 @@ import (
 	"golang.org/x/tools/go/ssa"
 )
 
-type EngineErr struct{ Msg string }
+type EngineErr struct {
+	Msg   string
+	Stack []string
+}
 
-func engineErr(msg string) *EngineErr { return &EngineErr{msg} }
+func engineErr(msg string) *EngineErr { return &EngineErr{Msg: msg} }
 
 type GoPanic struct {
-	V   Value
-	Msg string
+	V     Value
+	Msg   string
+	Stack string
 }
 
 type PathEnd struct{ Reason string }
@@ -43,7 +47,20 @@ type Frame struct {
 }
 
 func (ex *Exec) goPanic(msg string) {
-	panic(&GoPanic{V: Iface{T: types.Typ[types.String], V: ex.strConst(msg)}, Msg: msg})
+	panic(&GoPanic{V: Iface{T: types.Typ[types.String], V: ex.strConst(msg)}, Msg: msg, Stack: ex.stackString()})
+}
+
+func (ex *Exec) stackString() string {
+	n := len(ex.stackNames)
+	lo := n - 8
+	if lo < 0 {
+		lo = 0
+	}
+	var parts []string
+	for i := n - 1; i >= lo; i-- {
+		parts = append(parts, ex.stackNames[i])
+	}
+	return strings.Join(parts, " < ")
 }
 
 func (ex *Exec) eval(fr *Frame, v ssa.Value) Value {
@@ -207,6 +224,9 @@ func (ex *Exec) call(fn *ssa.Function, args []Value, nparams int, deferBy *Frame
 		ex.noteIntrinsic(name)
 		return in(ex, args[:nparams], caller)
 	}
+	if in := harnessIntrinsic(fn); in != nil {
+		return in(ex, args[:nparams], caller)
+	}
 	if fn.Blocks == nil && fn.Pkg != nil {
 		fn.Pkg.Build()
 	}
@@ -222,6 +242,7 @@ func (ex *Exec) call(fn *ssa.Function, args []Value, nparams int, deferBy *Frame
 		panic(engineErr("call depth exceeded at " + name))
 	}
 	ex.noteFunc(fn)
+	ex.stackNames = append(ex.stackNames, name)
 	fr := &Frame{fn: fn, env: make(map[ssa.Value]Value, 16), deferBy: deferBy, caller: caller}
 	for i, p := range fn.Params {
 		fr.env[p] = args[i]
@@ -231,9 +252,13 @@ func (ex *Exec) call(fn *ssa.Function, args []Value, nparams int, deferBy *Frame
 	}
 	defer func() {
 		ex.depth--
+		ex.stackNames = ex.stackNames[:len(ex.stackNames)-1]
 		if r := recover(); r != nil {
 			gp, ok := r.(*GoPanic)
 			if !ok {
+				if ee, isE := r.(*EngineErr); isE && len(ee.Stack) < 12 {
+					ee.Stack = append(ee.Stack, name)
+				}
 				panic(r)
 			}
 			fr.panicking = gp
@@ -319,7 +344,7 @@ func (ex *Exec) runBlocks(fr *Frame, b *ssa.BasicBlock) Value {
 				return ret
 			case *ssa.Panic:
 				v := ex.eval(fr, i.X)
-				panic(&GoPanic{V: v, Msg: ex.panicText(v)})
+				panic(&GoPanic{V: v, Msg: ex.panicText(v), Stack: ex.stackString()})
 			default:
 				ex.step(fr, ins)
 			}
@@ -336,7 +361,7 @@ func (ex *Exec) runBlocks(fr *Frame, b *ssa.BasicBlock) Value {
 				fr.loopCount = map[*ssa.BasicBlock]int{}
 			}
 			fr.loopCount[next]++
-			if fr.loopCount[next] > ex.unwind {
+			if fr.loopCount[next] > ex.unwind && ex.inInit == 0 {
 				panic(engineErr(fmt.Sprintf("unwinding bound %d exceeded at %s", ex.unwind, ex.prog.Fset.Position(firstPos(next)))))
 			}
 		}
